@@ -1549,7 +1549,10 @@ class WassersteinDistanceNewton(VariationalWassersteinDistance):
         )
 
         # Initialize distance in case below iteration fails
-        new_distance = 0
+        new_distance = self.l1_dissipation(solution_i[self.flux_slice])
+
+        # Keep track of whether the iteration is stopped by some error
+        abruptly_stopped = False
 
         # Initialize container for storing the convergence history
         convergence_history = {
@@ -1688,6 +1691,7 @@ class WassersteinDistanceNewton(VariationalWassersteinDistance):
                         break
             except Exception:
                 warnings.warn("Newton iteration abruptly stopped due to some error.")
+                abruptly_stopped = True
                 break
 
         # Summarize profiling (time in seconds, memory in GB)
@@ -1696,7 +1700,7 @@ class WassersteinDistanceNewton(VariationalWassersteinDistance):
 
         # Define performance metric
         info = {
-            "converged": iter < num_iter - 1,
+            "converged": iter < num_iter - 1 and not abruptly_stopped,
             "number_iterations": iter,
             "convergence_history": convergence_history,
             "timings": total_timings,
@@ -1826,7 +1830,10 @@ class WassersteinDistanceBregman(VariationalWassersteinDistance):
         )
 
         # Initialize distance in case below iteration fails
-        new_distance = 0
+        new_distance = self.l1_dissipation(solution_i[self.flux_slice])
+
+        # Keep track of whether the iteration is stopped by some error
+        abruptly_stopped = False
 
         # Initialize container for storing the convergence history
         convergence_history = {
@@ -2056,6 +2063,7 @@ class WassersteinDistanceBregman(VariationalWassersteinDistance):
 
             except Exception:
                 warnings.warn("Bregman iteration abruptly stopped due to some error.")
+                abruptly_stopped = True
                 break
 
         # Solve for the pressure by solving a single Newton iteration
@@ -2074,7 +2082,7 @@ class WassersteinDistanceBregman(VariationalWassersteinDistance):
 
         # Define performance metric
         info = {
-            "converged": iter < num_iter - 1,
+            "converged": iter < num_iter - 1 and not abruptly_stopped,
             "number_iterations": iter,
             "convergence_history": convergence_history,
             "timings": total_timings,
